@@ -465,6 +465,21 @@ def opRowLen : P String := do
   | [] => pure (showOut (.ok []))
   | hdr :: rows => pure (showOut (.ok (hdr :: rowSelect (fun r => r.length == n) compl rows)))
 
+/-- search <complement> <field(s)|KN> <table> <mask table>: the mask holds, cell by cell, whether the pattern matches -/
+def opSearch : P String := do
+  let compl ← pBool
+  let key ← pKey
+  let t ← pTable
+  let mask ← pTable
+  match t with
+  | [] => pure (showOut (.ok []))
+  | hdr :: rows =>
+    match (match key with | none => Except.ok none | some k => (asindices hdr k).map some) with
+    | .error e => pure (showOut (.fail [hdr] e))
+    | .ok idx =>
+      let ms := (mask.drop 1).map (fun r => r.map Val.truthy)
+      pure (showOut (.ok (hdr :: searchRows idx compl (rows.zip ms))))
+
 /-- slice <start|-> <stop|-> <step|-> <table> ; tail <n> <table> ; skip <n> <table> -/
 def opSlice : P String := do
   let start ← pOptNat
@@ -956,6 +971,7 @@ def dispatch (op : String) : Option (P String) :=
   | "isunique" => some opIsUnique
   | "select" => some opSelect
   | "rowlen" => some opRowLen
+  | "search" => some opSearch
   | "slice" => some opSlice
   | "tail" => some opTail
   | "skip" => some opSkip
